@@ -13,8 +13,8 @@ WT=/tmp/wt/confirm$L
 export CARGO_TARGET_DIR=/tmp/seedtarget$L CARGO_NET_OFFLINE=true
 J=${JOBS:-16}
 if [ ! -d $WT ]; then git -C /repo worktree add --detach $WT HEAD >/dev/null 2>&1 || exit 3; fi
-cd $WT && git checkout -q -- . && git clean -fdq
-head=$(git -C /repo rev-parse --short HEAD)
+cd $WT && git checkout -q -- . && git clean -fdq && git checkout -q --detach $(git -C /repo rev-parse HEAD)   # always the current /repo HEAD (a lane may outlive a fix: commit)
+head=$(git -C $WT rev-parse --short HEAD)
 git apply --check "$D/patch.diff" 2>/tmp/confirm$L.err || { echo "{\"seed\": \"$D\", \"applies\": false}" > $OUT; exit 1; }
 git apply "$D/patch.diff"
 # 1. suite with the change
